@@ -23,8 +23,13 @@ RULE = (
     "Hypothesis histories: synthetic world spec (3 families x 2-5 units, cut spanning trees, redundant edges, "
     "area/volume units) + positions of 0-8 queries (in_unit, ==, <, + ; on the final pair with probability 1/2, "
     "else random) between the declarations + optional re-declaration with a new ratio + final query; world A "
-    "= interleaved, world B = declarations then final query, both in fresh imports. Non-trivial: a query "
-    "touching the final pair precedes a declaration; distinct = history hash."
+    "= interleaved, world B = declarations then final query, both in fresh imports. Plus three enumerated "
+    "history scenarios in fresh worlds of their own, each compared with the same declarations without the early "
+    "queries: an equivalence restated with the same number in another numeric type (6 numbers x type pairs x "
+    "magnitudes x query kinds), two unrelated pairs with equal ratios written in different types queried over "
+    "powers (echo), and a unit of a derived dimension used as bystander / in failing conversions / in comparisons "
+    "before its expansion into base units is declared. Non-trivial: a query "
+    "touching the final pair precedes a declaration (every enumerated scenario is); distinct = history hash."
 )
 ASSUMPTIONS = [
     "a fresh world (all measured modules purged from sys.modules and re-imported) stands for a fresh process",
@@ -390,6 +395,12 @@ def enumerate_cases(tier):
                 for kind in ("in_unit", "add", "m_add"):
                     for tail in (False, True):
                         out.append({"restate": R, "types": [first, second], "mag": mag, "kind": kind, "unrelated_after": tail})
+    # a unit of a derived dimension takes part in conversions (as a bystander factor, or as the
+    # subject of a conversion that fails) BEFORE its expansion into base units is declared
+    for dim in ("Area", "Volume", "Speed", "Force"):
+        for early in ("bystander", "failed", "both", "compare"):
+            for kind in ("in_unit", "eq", "add"):
+                out.append({"late": dim, "early": early, "kind": kind})
     # two unrelated pairs of units whose ratios are equal numbers written in different numeric types
     # (an "echo"): conversions over powers of the first pair, then the final query over the second
     for R in ("4", "2.5", "0.25", "10"):
@@ -400,6 +411,61 @@ def enumerate_cases(tier):
                 for e in (1, 2, 3, -2):
                     out.append({"echo": R, "types": [first, second], "mag": mag, "e": e})
     return out
+
+
+def _run_late(case, out):
+    from ..world import World
+
+    def history(with_early):
+        w = World([])
+        m = w.m
+        la, lb, ma, mb, t = (m.Unit.define(d, n, n) for d, n in ((m.Length, "la"), (m.Length, "lb"), (m.Mass, "ma"), (m.Mass, "mb"), (m.Time, "tt")))
+        lb.equals(0.25 * la)
+        mb.equals(0.5 * ma)
+        dim = getattr(m, case["late"])
+        x = m.Unit.define(dim, "xlate", "xlate")
+        expa = {"Area": la**2, "Volume": la**3, "Speed": la / t, "Force": ma * la / t**2}[case["late"]]
+        expb = {"Area": lb**2, "Volume": lb**3, "Speed": lb / t, "Force": mb * lb / t**2}[case["late"]]
+        if with_early:
+            early = []
+            if case["early"] in ("bystander", "both"):
+                early += [lambda: (1 * x * la).in_unit(x * lb), lambda: (2 * x / t).in_unit(x / t)]
+            if case["early"] in ("failed", "both"):
+                early += [lambda: (1 * x).in_unit(expb), lambda: (1 * expa).in_unit(x)]
+            if case["early"] == "compare":
+                early += [lambda: (1 * x) == (1 * expb), lambda: (1 * x * la) == (1 * x * lb)]
+            for q in early:
+                try:
+                    q()
+                except Exception:  # noqa -- nothing is declared about x yet: what these do is not the subject here (C07's)
+                    pass
+        x.equals(3 * expa)
+        res = []
+        for src, dst in ((x, expb), (expb, x), (x * la, expb * lb)):
+            try:
+                if case["kind"] == "in_unit":
+                    r = (1 * src).in_unit(dst)
+                    res.append((type(r.magnitude).__name__, repr(r.magnitude)))
+                elif case["kind"] == "eq":
+                    res.append(("b", (1 * src) == (1 * dst), (1 * src) < (1 * dst)))
+                else:
+                    r = (1 * dst) + (1 * src)
+                    res.append((type(r.magnitude).__name__, repr(r.magnitude)))
+            except Exception as ex:  # noqa
+                res.append(("exc", type(ex).__name__))
+        return res
+
+    try:
+        ra, rb = history(True), history(False)
+    finally:
+        from ..world import shared_world
+        shared_world()
+    out.classes.append("late-expansion")
+    out.classes.append("query-before-declaration")
+    if ra != rb:
+        out.fail("C08:history-dependence:late-expansion", f"a unit of dimension {case['late']} used ({case['early']}) before its expansion is declared: afterwards the final queries ({case['kind']}) give {ra}, with the declarations alone they give {rb}")
+    out.nontrivial = core.case_hash(case)
+    out.sample = {"late": case["late"], "early": case["early"], "outcome": rb}
 
 
 def _run_echo(case, out):
@@ -495,9 +561,9 @@ def _run_restated(case, out):
 
 def run_case(case) -> core.Outcome:
     out = core.Outcome()
-    if isinstance(case, dict) and ("restate" in case or "echo" in case):
+    if isinstance(case, dict) and ("restate" in case or "echo" in case or "late" in case):
         try:
-            (_run_restated if "restate" in case else _run_echo)(case, out)
+            (_run_restated if "restate" in case else _run_echo if "echo" in case else _run_late)(case, out)
         except (KeyError, ValueError, TypeError, IndexError):
             out.invalid = True
         return out
